@@ -48,6 +48,14 @@ def run (inp obs : List String) : Verdict :=
   let feats := (if unsafeGlif then ["glif-path-dotdot"] else []) ++ (if unsafeKey then ["store-key-dotdot"] else []) ++
     (if badLayerDir then ["layer-dir"] else [])
   let s0 := if badLayerDir then ["layer-dir-not-single-component"] else []
+  -- every glyph has its own glif file, every layer its own directory (exact and ignoring ASCII case)
+  let low (x : List Char) : List Char := x.map Char.toLower
+  let rec distinct : List (List Char) → Bool
+    | [] => true
+    | a :: r => !r.contains a && distinct r
+  let sameGlif := f.layers.any fun l => !distinct (l.entries.map fun e => low e.file)
+  let sameDir := !distinct (f.layers.map fun l => low l.dir)
+  let s0 := s0 ++ (if sameGlif then ["glif-files-distinct"] else []) ++ (if sameDir then ["layer-dirs-distinct"] else [])
   let s1 := if preOut == postOut then [] else
     ["frame" ++ (if feats.isEmpty then "" else ":" ++ ",".intercalate feats)]
   let expected := ((expectedPaths f t).map fun e => (pathStr e.1, e.2)) |>.foldl
